@@ -120,10 +120,13 @@ class Ctx:
         self.cache = {}
         self.timeouts = 0
         self.c19_seen = set()
-        signal.signal(signal.SIGALRM, _alarm)
+        signal.signal(signal.SIGVTALRM, _alarm)
+        # budget of one transition in CPU seconds of this process (not wall clock: a loaded machine must not look like a hang); the
+        # universes with 2^16 / 2^24 slots copy and scan big tables legitimately
+        self.budget = 10 if self.hb <= 12 else 180
 
     def close(self):
-        signal.setitimer(signal.ITIMER_REAL, 0)
+        signal.setitimer(signal.ITIMER_VIRTUAL, 0)
 
     def apply(self, qf, o):
         nm = o[0]
@@ -175,14 +178,15 @@ class Ctx:
         if self.timeouts >= 2:  # non-termination already established in this batch; do not burn the budget
             t.extra["skipped_after_timeouts"] = t.extra.get("skipped_after_timeouts", 0) + 1
             return
-        signal.setitimer(signal.ITIMER_REAL, 5)
         try:
-            self._edge(t, c, hist, o, exp, e.get("lay") or [])
-        except _Timeout:
+            try:
+                signal.setitimer(signal.ITIMER_VIRTUAL, self.budget)
+                self._edge(t, c, hist, o, exp, e.get("lay") or [])
+            finally:
+                signal.setitimer(signal.ITIMER_VIRTUAL, 0)
+        except _Timeout:      # also when the signal arrives between the end of _edge and the reset above
             self.timeouts += 1
-            t.fail("C04", "C04.terminates", ENGINE, {"cfg": c, "universe": self.univ, "history": hist, "op": o}, {"op": o[0]})
-        finally:
-            signal.setitimer(signal.ITIMER_REAL, 0)
+            t.fail("C04", "C04.terminates", ENGINE, {"cfg": c, "universe": self.univ, "history": hist, "op": o, "cpu_seconds": self.budget}, {"op": o[0]})
 
     def _edge(self, t, c, hist, o, exp, lay):
         qf = self.source(c, hist)
